@@ -885,6 +885,26 @@ var c10Paths = func() []c10Path {
 		}
 		return p
 	}
+	// a Patient whose repeated elements each carry extensions (several carriers of one url, in several parents)
+	pnx := func() fhir.Resource {
+		p := lib.Patient()
+		sx := func(u, v string) *dtpb.Extension {
+			return &dtpb.Extension{Url: fhir.URI(u), Value: &dtpb.Extension_ValueX{Choice: &dtpb.Extension_ValueX_StringValue{StringValue: fhir.String(v)}}}
+		}
+		for k, n := range p.Name {
+			n.Extension = append(n.Extension, sx("http://u", fmt.Sprintf("name%d", k)))
+			if k%2 == 0 {
+				n.Extension = append(n.Extension, sx("http://v", fmt.Sprintf("v%d", k)), sx("http://u", fmt.Sprintf("again%d", k)))
+			}
+			for g, gv := range n.Given {
+				gv.Extension = append(gv.Extension, sx("http://u", fmt.Sprintf("given%d.%d", k, g)))
+			}
+		}
+		for k, t := range p.Telecom {
+			t.Extension = append(t.Extension, sx("http://v", fmt.Sprintf("t%d", k)))
+		}
+		return p
+	}
 	// criteria that yield FHIR boolean *elements* (not System Booleans), including false ones
 	patc := func() fhir.Resource {
 		p := lib.PatientWith(lib.B(false), lib.B(true))
@@ -901,6 +921,10 @@ var c10Paths = func() []c10Path {
 		{pex, "Patient", []string{"extension.exists()"}, urls},
 		{pex, "Patient.birthDate", []string{"extension.exists()"}, urls},
 		{pex, "Patient.extension", []string{"url.exists()", "url = ''", "url.empty()"}, urls},
+		{pnx, "Patient.name", []string{"extension.exists()", "extension('http://v').exists()", "extension('http://u').count() > 1"}, urls},
+		{pnx, "Patient.name.given", []string{"extension('http://u').exists()"}, urls},
+		{pnx, "Patient.telecom", []string{"extension('http://v').value = 't0'"}, urls},
+		{pnx, "Patient.name.tail()", []string{"extension.exists()"}, urls},
 		{pat, "Patient.name", []string{"use = 'official'", "family = 'Jones'", "given.count() > 1", "family.exists()", "period.exists()"}, urls},
 		{pat, "Patient.name.given", []string{"$this = 'Ann'", "$this.length() > 2", "$this is string"}, urls},
 		{pat, "Patient.name.family", []string{"$this = 'Smith'"}, nil},
